@@ -450,12 +450,15 @@ impl AnnotationStore {
             format!("{}.to_csv_files: filename={:?}, basename={:?}", Self::typeinfo(), filename, basename)
         });
         self.to_csv_file(filename, self.config(), CsvTable::StoreManifest)?;
+        //(the manifest names the annotations table relative to the store's directory and the reader
+        // opens it from there: write it there too, not in the current working directory)
+        let new_config = self.new_config();
         self.to_csv_file(
             self.annotations_filename()
                 .map(|x| x.to_str().expect("valid utf-8").to_owned())
                 .unwrap_or_else(|| format!("{}.annotation.csv", basename))
                 .as_str(),
-            self.config(),
+            &new_config,
             CsvTable::Annotation,
         )?;
         for dataset in self.datasets().map(|x| x.as_ref()) {
